@@ -608,7 +608,7 @@ class PolyFacet:
                     r = self.div(a, b)
                 elif isinstance(e.op, _ast.Pow):
                     k = b.rat.is_const()
-                    if k is None:
+                    if k is None or not (abs(k) <= 64 and k.denominator <= 12):
                         return self.apply_fn("pow", [a, b])
                     r = self.powf(a, k)
                 else:
